@@ -70,6 +70,7 @@ fn registry(id: &str) -> Option<(&'static str, RunFn, ReplayFn)> {
         "C07" => ("C07", props::c07::run, props::c07::replay),
         "C08" => ("C08", props::c08::run, props::c08::replay),
         "C09" => ("C09", props::c09::run, props::c09::replay),
+        "C10" => ("C10", props::c10::run, props::c10::replay),
         "C11" => ("C11", props::c11::run, props::c11::replay),
         "C12" => ("C12", props::c12::run, props::c12::replay),
         _ => return None,
